@@ -640,7 +640,22 @@ func (e *Env) Build(res []*GenResult) (driver string, err error) {
 			withCode = append(withCode, r)
 		}
 	}
-	so, se, ex, err := run(e.WS, e.GoEnv, nil, "go", "build", "./...")
+	// only the packages of THIS set of runs: the work space is shared by the families of one check, and a package
+	// an earlier family found broken (and reported) is not this family's business
+	args := []string{"build"}
+	seenPkg := map[string]bool{}
+	for _, r := range withCode {
+		for _, p := range []string{r.TargetImport, r.StructImport} {
+			if p != "" && !seenPkg[p] {
+				seenPkg[p] = true
+				args = append(args, p)
+			}
+		}
+	}
+	if len(args) == 1 {
+		args = append(args, "./...")
+	}
+	so, se, ex, err := run(e.WS, e.GoEnv, nil, "go", args...)
 	if err != nil {
 		return "", err
 	}
